@@ -364,7 +364,11 @@ func compute(tier string, seed int64, dir string) *Shared {
 				s.Fired[name]++
 				s.DiagShapes[name+"|"+shapeOf(d.Text)] = true
 				for _, f7 := range CheckC07(fr.file, st, d) {
-					s.fail("C07", "C07/"+name+"/"+f7.Class, fmt.Sprintf("%s on %s/%s: %s", v, fr.pkg.Name, fr.file.Name, f7.What),
+					keyName := name
+					if f7.Class == "text-invalid-utf8" && v.Info.EmbeddedRuleguard {
+						keyName = "ruleguard-engine" // one defect of the engine's message truncation, whichever rule group exhibits it
+					}
+					s.fail("C07", "C07/"+keyName+"/"+f7.Class, fmt.Sprintf("%s on %s/%s: %s", v, fr.pkg.Name, fr.file.Name, f7.What),
 						map[string]interface{}{"package": fr.pkg.Name, "file": fr.file.Name, "checker": v.String(), "position": posStr(d.Pos),
 							"text": d.Text, "line": sourceLine(fr.file, d), "origin": fr.pkg.Origin})
 				}
